@@ -574,6 +574,54 @@ def p12(rep):
                       "diagnostic of the includer")
 
 
+def p13(rep):
+    """A position is made from a pair (local line, global line) of the *same* line.  While a file is read, fileState.lineNumber
+    and inclSerialLineNo advance together (P9), so the pair is always current.  When an include returns, inclFile restores
+    fileState -- the local line goes back to the directive's line -- while the global counter keeps the number of the included
+    file's last line: until both have been stepped again the two do not belong to one line.  Handing them to sposNew /
+    sposGrowGloLineTbl at that point claims the included file's last line for the includer (a diagnostic there is reported at
+    the #include line).  In include.c no call that is given both counters is reachable from a restore `fileState = <saved>`
+    without passing an increment of inclSerialLineNo."""
+    f = common.extract("include.c", all_trees=True, all_cfg=True)
+    n = 0
+    for name, fn in sorted(f.funcs.items()):
+        if "body" not in fn or not fn.get("file", "").endswith("include.c") or not fn.get("cfg"):
+            continue
+        restores = [x for x in walk(fn["body"]) if x["k"] == "BinaryOperator" and x["op"] == "=" and
+                    (strip(x["c"][0]) or {}).get("k") == "DeclRefExpr" and strip(x["c"][0])["n"] == "fileState" and
+                    (strip(x["c"][1]) or {}).get("k") == "DeclRefExpr"]
+        if not restores:
+            continue
+        cfg = common.CFG(fn)
+
+        def pair_call(e):
+            if e["k"] != "CallExpr":
+                return False
+            txt = [y for a in e["c"][1:] for y in walk(a)]
+            return any(y["k"] == "MemberExpr" and y["n"] == "lineNumber" for y in txt) and \
+                any(y["k"] == "DeclRefExpr" and y["n"] == "inclSerialLineNo" for y in txt)
+
+        def steps(e):
+            return e["k"] == "UnaryOperator" and e["op"] in ("++", "post++") and (strip(e["c"][0]) or {}).get("n") == "inclSerialLineNo"
+        for r in restores:
+            ev = cfg.events(lambda e: e.get("id") == r["id"])
+            if not ev:
+                raise AnalysisBroken("%s: the restore of fileState is not in the CFG" % name)
+            b, i, _ = ev[0]
+            n += 1
+            p = cfg.path_avoiding(b, pair_call, steps, src_idx=i)
+            key = "counters-paired-after-restore:%s" % name
+            if p is None:
+                rep.ok("P13", key + "@%d" % r["l"])
+            else:
+                rep.violation("P13", key, "include.c:%d (%s)" % (r["l"], name),
+                              "after `%s` the local line is the #include directive's, the global line still the included file's "
+                              "last: a call given both reaches the line table with a pair that belongs to no single line, so the "
+                              "last line of the included file decodes as the includer's #include line" % render(r)[:40],
+                              detail={"cfg_path": p[:10]})
+    rep.floor("restores of the reader's state in include.c", n, 1)
+
+
 def p10(rep):
     """sposNew starts a new line-table segment -- which is what makes a message name the file it is in -- when the file name of
     the next line differs from the previous entry's (fnameEqual -> osFnameDirEqual for the directory parts).  osFnameDirEqual
@@ -655,5 +703,6 @@ def run(tier, only=None):
     p10(rep)
     p11(rep)
     p12(rep)
+    p13(rep)
     rep.analysed_count("translation units", 3)
     return rep
